@@ -80,7 +80,12 @@ def confirm(mid, runs=3):
     subprocess.run(["git", "-C", "/repo", "worktree", "add", "--detach", wt, "HEAD", "-q"], check=True)
     res = dict(id=mid, head=subprocess.run(["git", "-C", "/repo", "rev-parse", "--short", "HEAD"], stdout=subprocess.PIPE, text=True).stdout.strip())
     try:
-        setup, cmd = DEMOS[mid]
+        if mid in DEMOS:
+            setup, cmd = DEMOS[mid]
+        else:
+            # later batches: the recipe is kept next to the demonstration
+            inst = json.load(open(os.path.join(M, "demo", "INSTALL.json")))
+            setup, cmd = inst["setup"], inst["cmd"]
         # with the patch, before the demonstration is installed: builds, and the pinned suite passes
         rc, out = sh("git apply %s/patch.diff && go build ./..." % M, wt)
         if rc != 0:
@@ -122,7 +127,7 @@ if __name__ == "__main__":
     if sys.argv[1] == "list":
         print(" ".join(sorted(DEMOS)))
     elif sys.argv[1] == "confirm":
-        ids = sys.argv[2:] or sorted(DEMOS)
+        ids = sys.argv[2:] or sorted(d for d in os.listdir(os.path.join(V, "seeded")) if os.path.isdir(os.path.join(V, "seeded", d)))
         for mid in ids:
             r = confirm(mid)
             json.dump(r, open(os.path.join(V, "seeded", mid, "confirm.json"), "w"), indent=1)
